@@ -47,6 +47,11 @@ pub fn gen_opre(c: &OCfg) -> OPre {
     gen_opre_with(c, fub::gen_pre(c.cap, false))
 }
 
+/// as `gen_opre`, the ready queue concretely empty
+pub fn gen_opre_q0(c: &OCfg) -> OPre {
+    gen_opre_with(c, fub::gen_pre_q(c.cap, false, 0))
+}
+
 /// narrow pre-state for the deep `FuturesOrdered` stack: every slot holds a
 /// future, exactly one of them (any) is queued; queue places, the parked
 /// outputs, registration and ghost flags stay arbitrary
@@ -67,12 +72,21 @@ pub fn gen_opre_narrow(c: &OCfg) -> OPre {
 }
 
 fn gen_opre_with(c: &OCfg, p: Pre) -> OPre {
+    gen_opre_with_out(c, p, None)
+}
+
+/// `out`: concrete position counter (nothing is drawn for it, so that the tape of a
+/// counterexample lines up with the draws of the native replay)
+fn gen_opre_with_out(c: &OCfg, p: Pre, out: Option<usize>) -> OPre {
     fub::gen_ghost(&p, 0);
     let n_parked = c.max_parked;
     let len = p.filled + n_parked;
     let mut o = OPre {
         p,
-        out: nd::usize_any(),
+        out: match out {
+            Some(x) => x,
+            None => nd::usize_any(),
+        },
         n_parked,
         off: [0; MAXS],
         poff: [0; MAXP],
@@ -416,4 +430,76 @@ pub fn construct_unbounded(maxcap: u8) {
     vassert!(f.len() == 0 && f.is_empty(), "C15:fresh collection not empty");
     vcover!(n == 0, "cover:cap0");
     core::mem::forget(f);
+}
+
+/// Step(poll_next) then drop, with drop-counted outputs: whatever the poll does
+/// (yield, park an output that completed out of turn, re-base the positions
+/// with `mem::take` / `into_vec`), afterwards every output that exists - yielded,
+/// parked before or during the call - and every future has been dropped exactly
+/// once when the item and the collection are gone.
+pub fn step_poll_drop(c: &OCfg) {
+    step_poll_drop_out(c, None)
+}
+
+/// `out`: a concrete position counter (the re-basing block is then taken - or
+/// skipped - concretely, which keeps raw-pointer rewrites of it decidable)
+pub fn step_poll_drop_out(c: &OCfg, out: Option<usize>) {
+    use crate::child::{TFut, Tok};
+    gh::reset();
+    let o = gen_opre_with_out(c, fub::gen_pre(c.cap, false), out);
+    let gh = g();
+    let p = o.p;
+    let w = gh::task_waker(p.reg_t);
+    let q = p.q;
+    let mut i = 0;
+    while i < c.cap {
+        if p.occ[i] {
+            gh.slot_of[i] = i as u8;
+            gh.group_of[i] = 0;
+        }
+        i += 1;
+    }
+    let mut f: FuturesOrderedBounded<TFut> = v::fob_from_parts(
+        c.cap,
+        |i| if p.occ[i] { Ok((TFut::new(i as u8), o.out.wrapping_add(o.off[i]))) } else { Err(p.nf[i]) },
+        p.free_head,
+        p.qlen,
+        &q,
+        &w,
+        p.reg,
+        c.cap + c.max_parked,
+        o.out.wrapping_add(o.len),
+        o.out,
+    );
+    let mut k = 0;
+    while k < c.max_parked {
+        f.verif_park(o.out.wrapping_add(o.poff[k]), Tok::new((c.cap + k) as u8));
+        k += 1;
+    }
+    gh.selfwake_left = c.selfwakes;
+    let t = nd::below(2) as usize;
+    let w2 = gh::task_waker(t);
+    let mut cx = Context::from_waker(&w2);
+    let r = Pin::new(&mut f).poll_next(&mut cx);
+    vcover!(o.out >> 63 == 1 && matches!(r, Poll::Pending), "cover:pending_rebased");
+    vcover!(matches!(r, Poll::Ready(Some(_))), "cover:yield");
+    drop(r);
+    drop(f);
+    let mut i = 0;
+    while i < c.cap {
+        if p.occ[i] {
+            vassert!(gh.drops[i] == 1, "C06:future not dropped exactly once (poll, then drop of the ordered collection)");
+            if gh.done[i] {
+                vassert!(gh.tok_drops[i] == 1, "C06:output of a future that completed in the call not dropped exactly once");
+            }
+        }
+        i += 1;
+    }
+    let mut k = 0;
+    while k < c.max_parked {
+        vassert!(gh.tok_drops[c.cap + k] == 1, "C06:output parked out of turn not dropped exactly once (leaked or dropped twice by the poll / re-basing)");
+        k += 1;
+    }
+    core::mem::forget(w);
+    core::mem::forget(w2);
 }
